@@ -110,6 +110,11 @@ def run(prop: str, repo_root: str, jobs: int = 16) -> list[dict]:
 
 
 if __name__ == "__main__":
+    import os
+
+    if os.environ.get("PYTHONHASHSEED") != "0":  # same string hashing as the checks themselves (sa/main.py)
+        os.environ["PYTHONHASHSEED"] = "0"
+        os.execv(sys.executable, [sys.executable, "-m", "selftest.runner", *sys.argv[1:]])
     sys.path.insert(0, str(VERIF))
     props = sys.argv[1:] or None
     from selftest import mutants
